@@ -89,6 +89,7 @@ func checkC02(r *Run) propMeta {
 	checkInputsUnchangedOptimizeOnly(r)
 	checkUsageClassifiers(r)
 	checkSetBeforeToggle(r, cg)
+	checkReversalSeesEarlierParts(r, op, cg)
 	r.Floor("C02-R1-guard-slice", 12)
 	return meta
 }
